@@ -145,7 +145,8 @@ def smallset_unit(elem, n=4, cmp_='less', backing='set', iters=('ptr', 'input'),
 
 def memalg_unit(elem, std=17):
     E = ELEMS[elem]
-    lines = ['#include "drv_memory.hpp"', 'using E = %s;' % E, 'template void drv::use_memory<E>(E*, E*, const E*, int);']
+    lines = ['#include "drv_memory.hpp"', 'using E = %s;' % E, 'template void drv::use_memory<E>(E*, E*, const E*, int);',
+             'template void drv::use_allocator<E>(amc::allocator<E>&, int);']
     if elem in COPYABLE:
         lines.append('template void drv::use_memory_copy<E>(E*, const E*, const E*, int);')
     for it in (('fwd', 'bidir', 'input') if elem in COPYABLE else ()):
